@@ -27,3 +27,33 @@ pub mod client {
 pub mod net {
     pub use crate::net::*;
 }
+
+// ---- H2: named synchronisation points (used by src/cache/disk.rs) ----
+//
+// `sync` is a no-op unless a harness installed a controller; the controller is
+// called on the thread that reached the point and may block it for as long as it
+// likes, which lets a harness step real `DiskCache::put` / `get` calls through a
+// chosen interleaving (or abandon them, to imitate the death of the server).
+
+type SyncController = dyn Fn(&str, &std::path::Path, u64) + Send + Sync;
+
+static SYNC_CONTROLLER: std::sync::RwLock<Option<std::sync::Arc<SyncController>>> =
+    std::sync::RwLock::new(None);
+
+/// Install (or remove, with `None`) the global controller called at every sync point.
+pub fn set_sync_controller(c: Option<Box<SyncController>>) {
+    let c: Option<std::sync::Arc<SyncController>> = c.map(std::sync::Arc::from);
+    *SYNC_CONTROLLER.write().unwrap_or_else(|e| e.into_inner()) = c;
+}
+
+/// A named point in the code: `point` names it, `key` is the cache-relative path of
+/// the entry being stored or looked up, `len` the length of the entry (0 for lookups).
+pub fn sync(point: &str, key: &std::path::Path, len: u64) {
+    let c = SYNC_CONTROLLER
+        .read()
+        .unwrap_or_else(|e| e.into_inner())
+        .clone();
+    if let Some(c) = c {
+        c(point, key, len);
+    }
+}
